@@ -38,6 +38,7 @@ def hashesNoOutput : Bool := C11.ruleHashRuntimeWrites.contains "hashBool:Test.N
     Since the repair of `runtime-hash-omits-file-names` the entry NAMES must be hashed too. -/
 def FactsOK : Bool :=
   generatedFacts.hashesRule && generatedFacts.hashesConfig && generatedFacts.hashesFiles && generatedFacts.hashesNames &&
+  hashesNoOutput &&   -- since the repair of `runtime-hash-omits-no-test-output`
   generatedFacts.verifiesHash && generatedFacts.storeIfAllSucceeded && generatedFacts.removesBefore &&
   generatedFacts.rerunForces && generatedFacts.singleRunOnly &&
   -- the gate consults needToRun and the stored result is what is reported
@@ -47,6 +48,11 @@ def FactsOK : Bool :=
   -- both post-build variants of the runtime rule hash are included
   C11.runtimeHashParts.contains "rule(runtime=true,postBuild=true)" &&
   -- IterRuntimeFiles yields own outputs first, then data, and de-duplicates by destination
-  C11.iterRuntimeFilesOrder.take 3 == ["Outputs", "OwnRuntimeDeps", "AllData"] && C11.iterRuntimeFilesDedupBy == "dest"
+  -- (the whole sequence is pinned: dropping the runtime dependencies of data / the test tools would un-hash them)
+  C11.iterRuntimeFilesOrder == ["Outputs", "OwnRuntimeDeps", "AllData", "RuntimeDepsOfPrevious", "AllTestTools",
+    "RuntimeDepsOfPrevious", "AllDebugData", "RuntimeDepsOfPrevious", "AllDebugTools", "RuntimeDepsOfPrevious"] &&
+  C11.iterRuntimeFilesDedupBy == "dest" &&
+  -- the digest covers the same iterator that PrepareRuntimeDir materialises, with relative destination names
+  C11.runtimeHashLoopIter == "IterRuntimeFiles" && C11.runtimeHashLoopAbsoluteNames == "false"
 
 end PlzVerif.TestCache
